@@ -156,12 +156,17 @@ def run_gram(pid, tier, rep, deadline_s):
     for cr in tot['crashes']:
         rep.add({'kind': 'engine-crash', 'known': '', 'summary': 'the real code crashed (signal %s) in phase %s on grammar %s input %r' % (cr['signal'], cr['phase'], cr['gram'], cr['input']),
                  'spec': cr['spec'], 'nt': cr['nt'], 't': cr['t'], 'pspec': cr['prec'], 'rspec': cr['rprec'], 'input': cr['input'], 'engine': 'gram', 'grammar': cr['gram']})
+    dsl_n = 0
+    if pid in ('C01', 'C11'):
+        dsl_n, mism = dsl_conformance(tier, exe)
+        for m in mism[:5]:
+            rep.add({'kind': 'dsl-path-differs', 'known': '', 'engine': 'gram', 'summary': 'grammar %s written in the DSL behaves differently from the same grammar injected into a frame (which passed the oracles): %s' % (m['spec'], m['what']), 'count': len(mism)})
     evals = c.get(pid + '.evals', 0) or c.get('grammars', 0)
     nontriv = {'C01': c.get('nontrivial_lr1', 0), 'C02': c.get('nontrivial_lr1', 0), 'C09': c.get('nontrivial_lr1', 0), 'C16': c.get('nontrivial_lr1', 0) + c.get('nontrivial_err', 0),
                'C08': c.get('nontrivial_err', 0), 'C18': c.get('nontrivial_custom', 0), 'C06': c.get('nontrivial_lr1', 0), 'C12': c.get('nontrivial_lr1', 0), 'C05': c.get('C05.assignments', 0), 'C11': c.get('grammars', 0) - c.get('grammars_lr1', 0)}.get(pid, 0)
     rep.coverage = {
         'states': c.get('states', 0), 'transitions': c.get('cells_compared', 0) + c.get('parses', 0),
-        'traces_validated_against_impl': c.get('parses', 0),
+        'traces_validated_against_impl': c.get('parses', 0) + dsl_n, 'dsl_conformance_replays': dsl_n,
         'samples': tot['samples'][:6] or [{'note': 'no non-trivial case in this run'}],
         'evaluations': evals, 'distinct_nontrivial': nontriv, 'rule': GRAM_RULE.get(pid, ''),
         'exhaustive': exhaustive, 'bounds': bounds,
@@ -172,6 +177,47 @@ def run_gram(pid, tier, rep, deadline_s):
     rep.assumptions = ['grammars are injected into one compiled ctpg::parser instantiation per arity vector (name lookup of symbols bypassed; bound by the DSL conformance replays)',
                        'the reference LR(1) construction, CFG membership fixpoint and reference driver in /verif/ref are correct (they are cross-checked against each other on every LR(1) grammar)',
                        'terminals are single characters; whitespace and lexing are decided by C04/C10']
+
+def dsl_conformance(tier, exe):
+    """DESIGN 1.6: every grammar of the smallest tier written as an ordinary DSL program; its diagnostic text and parse results
+    must equal what the injected frame of the same grammar produces. Returns (validated, mismatches)."""
+    gen = os.path.join(VERIF, 'gen', 'dsl_gen.py')
+    d = common.build_dir('dsl_' + tier, [gen], ['-O0'])
+    out = os.path.join(d, 'dsl_out.txt'); specs = os.path.join(d, 'specs.txt')
+    if not os.path.exists(out):
+        tmp = d + '.tmp%d' % os.getpid(); shutil.rmtree(tmp, ignore_errors=True); os.makedirs(tmp)
+        ntus = 16 if tier == 'quick' else 48
+        r = sh([sys.executable, gen, tier, tmp, str(ntus), '3'])
+        if r.returncode != 0: harness_error('dsl generator failed: ' + r.stderr)
+        jobs = [(['g++', '-std=c++17', '-O0', '-I' + os.path.join(REPO, 'include'), os.path.join(tmp, 'dsl_%02d.cpp' % k), '-o', os.path.join(tmp, 'dsl_%02d' % k)], os.path.join(tmp, 'dsl_%02d.log' % k)) for k in range(ntus)]
+        failed = common.compile_many(jobs)
+        if failed:
+            msg = open(failed[0]).read()[-1500:]; shutil.rmtree(tmp, ignore_errors=True)
+            return 0, [{'spec': '(all)', 'what': 'the DSL programs do not compile: ' + msg}]
+        text = ''
+        for k in range(ntus):
+            r = sh([os.path.join(tmp, 'dsl_%02d' % k)], timeout=600)
+            text += r.stdout
+            if r.returncode != 0: text += '### crash\nDSL-PROGRAM-CRASHED rc=%s\n' % r.returncode
+        open(os.path.join(tmp, 'dsl_out.txt'), 'w').write(text)
+        for f in glob.glob(os.path.join(tmp, 'dsl_??')) + glob.glob(os.path.join(tmp, 'dsl_??.cpp')): os.remove(f)
+        if os.path.exists(d): shutil.rmtree(tmp, ignore_errors=True)
+        else: os.rename(tmp, d)
+    r = sh([exe, '--dump', specs, '--maxlen', '3'])
+    def blocks(t):
+        b = {}; cur = None
+        for l in t.splitlines():
+            if l.startswith('### '): cur = l[4:]; b[cur] = []
+            elif cur is not None: b[cur].append(l)
+        return b
+    A, B = blocks(open(out).read()), blocks(r.stdout)
+    mism = []
+    for k in A:
+        if k not in B or B[k] == ['NO-FRAME']: continue
+        if A[k] != B[k]:
+            first = next((i for i in range(min(len(A[k]), len(B[k]))) if A[k][i] != B[k][i]), min(len(A[k]), len(B[k])))
+            mism.append({'spec': k, 'what': 'DSL program prints %r where the injected frame gives %r' % (A[k][first] if first < len(A[k]) else '<end>', B[k][first] if first < len(B[k]) else '<end>')})
+    return sum(1 for k in A if k in B and B[k] != ['NO-FRAME']), mism
 
 def replay_gram(pid, path):
     v = json.load(open(path))
